@@ -4,7 +4,7 @@ import os
 import random
 
 from core import vloop
-from e2e import common, runner, scenario, upstream
+from e2e import common, run_e2e, runner, scenario, upstream
 
 EXPECTED = ["C01_exit0_all_stages_clean", "C01_clean_stage_all_obtained", "C01_clean_stage_sizes"]
 LEVEL = "proof"
@@ -17,7 +17,7 @@ RULE = ("scenario = 1-2 random upstream repositories (1-2 codenames, 1-3 compone
         "with a non-empty fault plan or switch or local fault, distinct by (class, fault kinds, target kind)")
 
 CLASSES = ["none", "transient", "transient", "persistent-required", "persistent-optional", "switch", "local-dir",
-           "transient", "persistent-ignored"]
+           "transient", "persistent-ignored", "unlisted-uncompressed"]
 
 
 def run_one(chk, sseed, cls):
@@ -38,6 +38,24 @@ def run_one(chk, sseed, cls):
         if cls == "switch":
             newrepos = [common.evolve(rng, r) for r in w.repos]
             switch = {"stores": w.stores(newrepos), "after": rng.randint(1, 25)}
+        if cls == "unlisted-uncompressed":
+            # corpus scenario of finding F-C01b: every listed (compressed) variant of a required index is gone, but the server
+            # still has the uncompressed file, which the Release does not list: it must not be accepted in their place
+            from e2e import fsck as fsckmod
+            repo = w.repos[0]
+            url = repo["url"]
+            groups = [g for g in scenario.required_objects(repo, w.cfgs[url], stores[url])
+                      if g["urls"] and all(fsckmod.uncompressed(u)[1] != "" for u in g["urls"])]
+            if groups:
+                g = rng.choice(groups)
+                u0 = g["urls"][0]
+                ext = fsckmod.uncompressed(u0)[1]
+                data = fsckmod.OPENERS[ext](stores[url][u0][0])
+                stores[url][g["name"]] = (data, stores[url][u0][1])
+                for u in g["urls"]:
+                    for a in [u] + scenario.byhash_aliases(stores[url], u):
+                        plans[url].append([a, "*", "404"])
+                infos[url] = {"what": "unlisted-uncompressed", "target": g["name"]}
         localinfo = None
         if cls == "local-dir":
             repo = rng.choice(w.repos)
@@ -50,7 +68,7 @@ def run_one(chk, sseed, cls):
                 root = runner.mirror_dir(w.sb, url) if where == "mirror" else runner.skel_dir(w.sb, url)
                 os.makedirs(os.path.join(root, rel, "occupied"), exist_ok=True)
                 localinfo = [where, rel]
-        res = w.run(plans=plans, chooser=vloop.RandomChooser(seed), switch=switch)
+        res = run_e2e.execute(w.sb, w.repos, stores, plans, vloop.RandomChooser(seed), switch=switch)
         replay = {"scenario_seed": sseed, "world": w.describe(), "plans": plans, "class": cls, "seed": seed,
                   "switch_after": switch["after"] if switch else None, "local": localinfo}
         if res.exit == 0:
